@@ -339,6 +339,12 @@ fn inject(hexpkt: &str) -> String {
 /// announcements (whole, partitioned over several packets in any order, duplicated), updates
 /// with the cache-flush bit, goodbyes, silent vanishing, foreign records, short and long TTLs.
 pub fn gen_scripted(r: &mut Rng, tag: &str, steps: u64, tail: u64, max_dt: u64) -> String {
+    gen_scripted_opts(r, tag, steps, tail, max_dt, false)
+}
+
+/// `hosts`: emphasise hostname resolution (resolve_hostname calls instead of browses) and
+/// stop every search before the tail.
+pub fn gen_scripted_opts(r: &mut Rng, tag: &str, steps: u64, tail: u64, max_dt: u64, hosts: bool) -> String {
     let mut cmds: Vec<String> = vec![format!("daemon {}", ifaces_of(0, r.chance(1, 4)))];
     cmds.push("ipint 0 100000".to_string());
     let ninst = r.range(1, 3) as usize;
@@ -353,11 +359,25 @@ pub fn gen_scripted(r: &mut Rng, tag: &str, steps: u64, tail: u64, max_dt: u64) 
     let mut now = 1_000_000u64;
     let mut chan = 0u64;
     cmds.push(format!("run {}", now));
-    // usually browse first
-    if r.chance(5, 6) {
+    let mut started_types: Vec<String> = vec![];
+    let mut started_hosts: Vec<String> = vec![];
+    // usually search first
+    if hosts {
         chan += 1;
-        cmds.push(format!("browse 0 {} {}", chan, hx(&insts[0].ty)));
+        let h = insts[0].host.clone();
+        let h = if r.chance(1, 2) { h.to_uppercase().replace(".LOCAL.", ".local.") } else { h };
+        let to = if r.chance(2, 3) { "none".to_string() } else { format!("some {}", r.pick(&[1500u64, 4000, 20000, 200_000])) };
+        cmds.push(format!("resolve 0 {} {} {}", chan, hx(&h), to));
         cmds.push(format!("run {}", now));
+        started_hosts.push(h);
+    }
+    if !hosts || r.chance(1, 2) {
+        if r.chance(5, 6) {
+            chan += 1;
+            cmds.push(format!("browse 0 {} {}", chan, hx(&insts[0].ty)));
+            cmds.push(format!("run {}", now));
+            started_types.push(insts[0].ty.clone());
+        }
     }
     for _ in 0..steps {
         let i = r.below(ninst as u64) as usize;
@@ -443,17 +463,26 @@ pub fn gen_scripted(r: &mut Rng, tag: &str, steps: u64, tail: u64, max_dt: u64) 
                 let mut f = gen_inst(r, 7);
                 f.ty = "_other._tcp.local.".to_string();
                 let recs = recs_of(&f, &t, true);
-                cmds.push(inject(&response(&recs[..1], &recs[1..])));
+                if r.chance(1, 2) {
+                    cmds.push(inject(&response(&recs[..1], &recs[1..])));
+                } else {
+                    // without any PTR: SRV/TXT/addresses of names nobody asked for
+                    cmds.push(inject(&response(&recs[1..], &[])));
+                }
             }
             11 => {
                 chan += 1;
                 match r.below(4) {
                     0 => cmds.push(format!("stopbrowse 0 {}", hx(&inst.ty))),
-                    1 => cmds.push(format!("browse 0 {} {}", chan, hx(&inst.ty))),
+                    1 => {
+                        cmds.push(format!("browse 0 {} {}", chan, hx(&inst.ty)));
+                        started_types.push(inst.ty.clone());
+                    }
                     2 => {
                         let h = if r.chance(1, 2) { inst.host.to_lowercase() } else { inst.host.to_uppercase().replace(".LOCAL.", ".local.") };
                         let to = if r.chance(1, 2) { "none".to_string() } else { format!("some {}", r.pick(&[1500u64, 4000, 20000])) };
                         cmds.push(format!("resolve 0 {} {} {}", chan, hx(&h), to));
+                        started_hosts.push(h);
                     }
                     _ => cmds.push(format!("verify 0 {} {}", hx(&format!("{}.{}", inst.label, inst.ty)), r.pick(&[1000u64, 3000, 10000]))),
                 }
@@ -465,6 +494,16 @@ pub fn gen_scripted(r: &mut Rng, tag: &str, steps: u64, tail: u64, max_dt: u64) 
             _ => {}
         }
         now += (*r.pick(&[0u64, 1, 400, 500, 800, 999, 1000, 1001, 1600, 2000, 4000, 8000, 9500, 10_000, 96_000, 120_000])).min(max_dt);
+        cmds.push(format!("run {}", now));
+    }
+    if hosts || r.chance(1, 2) {
+        // stop everything before the tail
+        for t in &started_types {
+            cmds.push(format!("stopbrowse 0 {}", hx(t)));
+        }
+        for h in &started_hosts {
+            cmds.push(format!("stopresolve 0 {}", hx(h)));
+        }
         cmds.push(format!("run {}", now));
     }
     now += tail;
